@@ -112,11 +112,22 @@ def reader_level(ctx, rng, good):
     rng.shuffle(good)
     sample = good[: (400 if ctx.quick() else 4000)]
     nrd = 0
-    for i in range(0, len(sample), 6):
-        grp = sample[i:i + 6]
+    # both forms of one message type through ONE reader, in both orders (what the reader learnt from the first frame
+    # of a type must not decide the mode of the next frame of that type)
+    by_type = {}
+    for it in good:
+        by_type.setdefault(it[0][2:4], {}).setdefault(it[3], []).append(it)
+    pairs = []
+    for k2, modes in sorted(by_type.items()):
+        if 1 in modes and 2 in modes:
+            a, b = rng.choice(modes[1]), rng.choice(modes[2])
+            pairs += [[a, b], [b, a], [b, a, b, a]]
+    ctx.count("setpoll_reader_same_type_sequences", len(pairs))
+    groups = pairs + [sample[i:i + 6] for i in range(0, len(sample), 6)]
+    for gi, grp in enumerate(groups):
         parts = []
         for j, (f, ref, name, mode) in enumerate(grp):
-            if j % 2 == 0:
+            if j % 2 == 0 and gi % 2 == 0:
                 parts.append((None, rng.choice(others)))
             parts.append(((ref, name, mode), f))
         stream = b"".join(p for _, p in parts)
